@@ -132,9 +132,22 @@ def new_opt(d):
         pass
     elif d.is_list:
         o.vals = list(d.default or [])
+    elif d.dparsed is not None:
+        # a hand-written declaration may give a scalar its default as text: "" = no value, otherwise one value token
+        o.vals = [] if d.dparsed == '' else [parsed_scalar(d)]
     else:
         o.vals = [d.default if d.typ == 'str' else (d.default or (0.0 if d.typ == 'float' else 0))]
     return o
+
+
+def parsed_scalar(d):
+    from vlib import model_num
+    t = d.dparsed
+    if d.typ == 'str':
+        return t[1:-1] if len(t) >= 2 and t[0] == t[-1] == '"' else t
+    r = {'int': model_num.conv_int, 'float': model_num.conv_float, 'bool': model_num.conv_bool}[d.typ](t)
+    assert r[0] == 'ok', (d.name, t, r)
+    return r[1]
 
 
 def new_root(decls):
@@ -163,7 +176,7 @@ def norm_dump_val(typ, v):
     return v
 
 
-def diff_sec(ms, dump, path='', check_mod=True, check_comment=False, sec_mod=False, simple_mod=False):
+def diff_sec(ms, dump, path='', check_mod=True, check_comment=False, sec_mod=False, simple_mod=False, ptr_len=True):
     """returns a list of difference strings (empty = equal)"""
     out = []
     if dump is None:
@@ -181,7 +194,7 @@ def diff_sec(ms, dump, path='', check_mod=True, check_comment=False, sec_mod=Fal
         if name != mo.d.name:
             out.append('%s: name %r' % (p, name))
             continue
-        if mo.d.typ == 'func':
+        if mo.d.typ == 'func' or (mo.d.typ == 'ptr' and not ptr_len):
             continue
         vals = do['v']
         if mo.d.simple:
@@ -197,7 +210,7 @@ def diff_sec(ms, dump, path='', check_mod=True, check_comment=False, sec_mod=Fal
             continue
         if mo.d.typ == 'sec':
             for k, (mv, dv) in enumerate(zip(mo.vals, vals)):
-                out.extend(diff_sec(mv, dv, '%s[%d]' % (p, k), check_mod, check_comment, sec_mod, simple_mod))
+                out.extend(diff_sec(mv, dv, '%s[%d]' % (p, k), check_mod, check_comment, sec_mod, simple_mod, ptr_len))
             if sec_mod and check_mod and bool(do['f'] & F_MODIFIED) != mo.mod:
                 out.append('%s: modified flag %s, expected %s' % (p, bool(do['f'] & F_MODIFIED), mo.mod))
             continue
